@@ -20,8 +20,80 @@ SELECT = ("vec_znx_dft_copy", "vec_znx_dft_apply")
 VT = ("deref", "deref_mut", "borrow", "borrow_mut", "as_mut", "as_ref", "into", "from", "clone", "to_ref", "to_mut", "data", "data_mut")
 
 
+class _Unjudged(Exception):
+    pass
+
+
+def _sw_holds(f, ev, sym, cond):
+    """a two-way decision on a boolean value (`if x.is_multiple_of(d)`), evaluated under the valuation; raises when the value is not evaluable"""
+    (_, _, bb), val = cond
+    t = f.blocks[bb]["t"]
+    pl = sym.operand(t["o"])
+    for a in pl.atoms():
+        if a[0] == "call":
+            nm = (f.callee_def(f.blocks[a[2]]["t"]) or {}).get("n", "")
+            if nm not in ("is_multiple_of", "checked_sub", "clamp", "next_multiple_of"):
+                raise _Unjudged()
+        elif a[0] == "f" and a[1] not in ("min", "max", "saturating_sub", "div_ceil", "Lt", "Le", "Gt", "Ge", "Eq", "Ne", "BitAnd", "Div", "Rem", "size", "dnum", "dsize", "Not", "is_multiple_of"):
+            raise _Unjudged()
+    v = ev.poly(pl)
+    listed = [x for x, _ in t["ts"]]
+    return (v not in listed) if val == "else" else (v == val)
+
+
+def _group_size(f, g, L, path, sym, sel_t):
+    """the `set_size` of the selection's destination inside the digit loop: {"size", "src_size", "rows"} or None"""
+    plain = Flow(f, transparent=VT)
+    dst = {r for r in plain.op_roots(sel_t["a"][3])}
+    src = [r for r in plain.op_roots(sel_t["a"][5]) if r[0] == "param"]
+    if not src:
+        return None
+    out = None
+    for b in path:
+        t = f.blocks[b]["t"]
+        if b in L["body"] and t and t["k"] == "Call" and (f.callee_def(t) or {}).get("n") == "set_size" and len(t["a"]) == 2:
+            if {r for r in plain.op_roots(t["a"][0])} & dst:
+                out = sym.operand(t["a"][1])
+    if out is None:
+        return None
+    from .rad import _deep_atoms
+    src_size = Poly.atom(("f", "size", (Poly.atom(("p", src[0][1], src[0][2])).key(),)))
+    # the operand's limb count as the group size itself names it (`a.size()` of the object, `a.data.size()` of its buffer: one quantity)
+    named = [a for a in _deep_atoms(out) if a[0] == "f" and a[1] == "size" and any(b[0] == "p" and b[1] == src[0][1] for b in _deep_atoms(Poly(dict(a[2][0]))))]
+    if len(set(named)) == 1:
+        src_size = Poly.atom(named[0])
+    rows = [a for a in _deep_atoms(out) if a[0] == "f" and a[1] == "dnum"]
+    return {"size": out, "src_size": src_size, "rows": Poly.atom(rows[0]) if len(rows) == 1 else None}
+
+
+ks2_all = []
+
+
+def ks2_report(res):
+    """KS-2 verdicts collected by the last run of ks1"""
+    n = 0
+    for f, k in ks2_all:
+        if k["points"] == 0 and k["bad"] is None:
+            if k["unjudged"]:
+                res.undec("KS-2", "%s: the group size depends on a decision that is not evaluable" % f.pretty)
+            continue
+        n += 1
+        if k["bad"]:
+            b = k["bad"]
+            res.bad("KS-2", f.pretty, "digit-group-too-short",
+                    "%s gives the digit group a size of %s: for an operand of %d limbs, dsize = %d and digit offset %d the copy selects %d limbs (rows available: %s) but the group is cut to %d - "
+                    "the remaining limbs of the operand never meet the key" % (f.pretty, b["expr"], b["limbs_of_a"], b["dsize"], b["digit_offset"], b["selected_by_the_copy"], b["rows"], b["size_set"]),
+                    site=f.where(), detail=b)
+        elif k["points"] < 200:
+            res.undec("KS-2", "%s: too few admissible points (%d)" % (f.pretty, k["points"]))
+        else:
+            res.ok("KS-2", {"fn": f.pretty, "points": k["points"], "law": "group size >= min(ceil((size(a) - offset) / step), rows)"})
+    return n
+
+
 def ks1(p, res, prefixes):
     n = 0
+    del ks2_all[:]
     for f in sorted(p.lib_fns(), key=lambda x: x.uid):
         if f.kind == "Closure" or not f.blocks or not f.uid.startswith(prefixes):
             continue
@@ -43,6 +115,8 @@ def ks1(p, res, prefixes):
         n += 1
         paths = sc.returning_paths(f, g, cap=800, unroll=1) or []
         bad = None
+        ks2 = {"points": 0, "bad": None, "unjudged": 0}
+        ks2_all.append((f, ks2))
         checked = 0
         seen = set()
         for path in paths:
@@ -51,7 +125,12 @@ def ks1(p, res, prefixes):
             v_on = [(bi, t) for bi, t in vm if bi in pos]
             if not s_on or not v_on:
                 continue
-            sig = (tuple(b for b, _ in s_on), tuple(b for b, _ in v_on))
+            # one evaluation per combination of (selection site, product site, blocks of the digit loop body traversed): paths that differ elsewhere are equivalent here
+            body_all = set()
+            for l in g.loops():
+                if s_on[0][0] in l["body"] and v_on[0][0] in l["body"]:
+                    body_all |= l["body"]
+            sig = (tuple(b for b, _ in s_on), tuple(b for b, _ in v_on), tuple(b for b in path if b in body_all))
             if sig in seen:
                 continue
             seen.add(sig)
@@ -76,6 +155,9 @@ def ks1(p, res, prefixes):
             off = sym.operand(s_on[0][1]["a"][2])
             lim = sym.operand(v_on[0][1]["a"][4])
             checked += 1
+            # KS-2: the limb count given to the selection's destination inside the digit loop
+            grp = _group_size(f, g, L, path, sym, s_on[0][1])
+            sw_conds = [c for c in conds if c[0] and isinstance(c[0], tuple) and c[0][0] == "sw"]
             for val in pwl.valuations(count=1200, hi=9):
                 ev = pwl.Eval(p, val)
                 ev.syms[f.uid] = sym
@@ -100,6 +182,20 @@ def ks1(p, res, prefixes):
                     continue  # loop variable outside 0..dsize: not a state of the loop
                 if (S != D or O + Lm != D - 1) and bad is None:
                     bad = {"dsize": D, "step": S, "offset": O, "limb_offset": Lm}
+                if grp is not None and S >= 1:
+                    try:
+                        sw_ok = all(_sw_holds(f, ev, sym, c) for c in sw_conds)
+                        if sw_ok:
+                            A, G = ev.poly(grp["src_size"]), ev.poly(grp["size"])
+                            R = ev.poly(grp["rows"]) if grp["rows"] is not None else None
+                            if A >= 1 and (R is None or R >= 1):
+                                avail = -(-(A - O) // S) if A > O else 0
+                                want = avail if R is None else min(avail, R)
+                                ks2["points"] += 1
+                                if G < want and ks2["bad"] is None:
+                                    ks2["bad"] = {"limbs_of_a": A, "dsize": D, "digit_offset": O, "rows": R, "selected_by_the_copy": avail, "size_set": G, "expr": repr(grp["size"])}
+                    except (pwl.ErrPath, ZeroDivisionError, _Unjudged):
+                        ks2["unjudged"] += 1
         # the un-grouped form: one product of all limbs at limb offset 0, outside the digit loop, is the whole gadget product only for dsize == 1
         flat = [(bi, t) for bi, t in f.calls() if (f.callee_def(t) or {}).get("n") == "vmp_apply_dft_to_dft" and g.innermost_loop(bi) is None and len(t["a"]) >= 5]
         dsz_free = None
@@ -424,6 +520,7 @@ def run(res, tier):
                        "in (Z/2NZ)* with the cyclotomic order; vmp kernels with a limb offset zero-fill what they do not write. Noise, the gadget arithmetic, trace / packing / extraction and "
                        "the independence of the result from the gadget shape beyond these clauses are not decided.")
     res.rule("KS-1", "digit loops: step == dsize and offset + limb_offset == dsize - 1 on every path")
+    res.rule("KS-2", "digit loops: the limb count given to a digit group is at least the number of limbs its strided copy selects, up to the rows of the key")
     res.rule("SIGN-3", "the Galois-element helpers use the ring degree only as 2 * n() / cyclotomic_order()")
     res.rule("WR-4", "raw-slice vmp kernels taking limb_offset: the zero fill starts one stride after the last written limb")
     res.rule("PACK-1", "packing butterflies (pack_internal, GLWEPacker::combine): every path computes (a + b X^t + phi(a - b X^t)) / 2, (a + phi(a)) / 2 or (b X^t - phi(b X^t)) / 2")
@@ -440,6 +537,8 @@ def run(res, tier):
         res.configs.append(p.build_info)
         n = ks1(p, res, ("poulpy_core::keyswitching",))
         res.floor("KS-1", "digit loops of the key-switching family", n, 1)
+        n2 = ks2_report(res)
+        res.floor("KS-2", "digit groups sized inside a digit loop", n2, 1)
         from .c09 import sign3
         n3 = sign3(p, res)
         res.floor("SIGN-3", "Galois-element helpers", n3, 2)
